@@ -81,7 +81,16 @@ def run(prog: Program) -> Results:
             res.add("R-C10-2", ("_get_context", "unvalidated hit", norm(rt.ast)), gc.loc(rt.ast),
                     f"`{norm(rt.ast)}` is reachable without `stored_ref() is {pname}`: after an id() is reused, the context of a dead "
                     f"document would be returned for an unrelated expression")
+    # the weak-reference callback: whatever `weakref.ref(<expr>, <callback>)` in _store_context names — a closure, a module-level
+    # function, or functools.partial(<function>, …)
     clear = sc.nested.get("_clear")
+    for c in walk_no_nested(sc.node):
+        if isinstance(c, ast.Call) and callee(c) == "ref" and len(c.args) == 2:
+            cb = c.args[1]
+            if isinstance(cb, ast.Call) and callee(cb) == "partial" and cb.args:
+                cb = cb.args[0]
+            if isinstance(cb, ast.Name):
+                clear = sc.nested.get(cb.id) or (prog.funcs.get(cb.id) if cb.id in prog.funcs and prog.funcs[cb.id].cls is None else clear)
     r2.instances += 1
     if clear is None:
         res.unclass("_store_context._clear vanished")
@@ -89,11 +98,11 @@ def run(prog: Program) -> Results:
         ccfg = CFG(clear.node)
         pops = [n for n in ccfg.nodes if n.ast is not None and any(isinstance(c, ast.Call) and callee(c) in ("pop", "__delitem__") and "_CONTEXTS" in norm(c) for c in ast.walk(n.ast))
                 or isinstance(n.ast, ast.Delete) and "_CONTEXTS" in norm(n.ast)]
-        rparam = clear.params()[0]
+        rparams = set(clear.params())
 
         def own_entry(a, truth):
             return isinstance(a, ast.Compare) and isinstance(a.ops[0], ast.Is) and truth is True and isinstance(a.comparators[0], ast.Name) \
-                and a.comparators[0].id == rparam
+                and a.comparators[0].id in rparams
 
         e_own = edges_establishing(ccfg, own_entry)
         ok = bool(pops) and bool(e_own) and all(ccfg.all_paths_pass(p, cut_edges=e_own) for p in pops)
@@ -103,6 +112,8 @@ def run(prog: Program) -> Results:
                     "the weak-reference callback can remove an entry that is not the one it was created for (a new expression "
                     "that reuses the id would lose its context)")
     owners = {"_store_context", "_store_context.<_clear>", "_get_context", "clear_resolution_context"}
+    if clear is not None:
+        owners.add(clear.key)  # the callback found above, under whatever name
     for f in prog.all_functions():
         for n in walk_no_nested(f.node):
             w = None
@@ -113,7 +124,7 @@ def run(prog: Program) -> Results:
                 w = n
             if w is not None:
                 r2.instances += 1
-                ok = f.key in owners
+                ok = f.key in owners or prog.reviewed_key(f.key) in owners
                 r2.ob(ok, {"writer": f.key, "write": norm(w)[:50]})
                 if not ok:
                     res.add("R-C10-2", (f.key, "writes _CONTEXTS"), f.loc(w), f"{f.key} writes the context registry `{norm(w)[:60]}`")
